@@ -11,6 +11,7 @@
 package c17
 
 import (
+	"context"
 	"errors"
 	"fmt"
 	"os"
@@ -64,6 +65,9 @@ type scenario struct {
 	ShortKill bool // ... or during it, if it is a write (half of the bytes reach the file)
 	Racers    int  // number of racing recoverers (1 or 2)
 	Override  bool // the recoverers call TryLock with stale-lock override instead of IsStale / ReleaseIfStale / TryLock
+	// CtxDeath (death mode): the holder does not stop as a process; the context it acquired with (one that carries a far
+	// deadline) is cancelled after CtxDeath of holding, and it never unlocks
+	CtxDeath time.Duration
 	// glitch mode: the holder's GlitchAt-th backend operation after its Mkdir of the lock directory fails once with a
 	// transient error (the backend is left untouched by that operation); everything else is on time
 	GlitchAt int
@@ -245,6 +249,28 @@ func body(sc scenario) func(x *gosim.Exec) {
 		holder := newLock(backend, shared, 0, false)
 		acquired := make(chan struct{})
 		x.Go("holder", 0, func() {
+			if sc.CtxDeath > 0 {
+				hctx, cancelDeadline := context.WithTimeout(x.Ctx(), time.Hour)
+				defer cancelDeadline()
+				hctx, cancel := context.WithCancel(hctx)
+				if err := holder.TryLock(hctx); err != nil {
+					x.Violate("setup:holder-cannot-acquire", "holder TryLock: %v", err)
+					cancel()
+					return
+				}
+				w.holding = true
+				close(acquired)
+				time.Sleep(sc.CtxDeath)
+				x.Gate(0, "holder: its context is cancelled")
+				cancel() // the job is over (cancelled, timed out): the holder never unlocks
+				w.holding = false
+				w.killed = true
+				w.deathAt = time.Now()
+				w.dirAtKill = true
+				w.outcome[0] = "context-cancelled"
+				close(w.dead)
+				return
+			}
 			err := holder.TryLock(x.Ctx())
 			if err != nil {
 				x.Violate("setup:holder-cannot-acquire", "holder TryLock: %v", err)
@@ -511,6 +537,9 @@ func scenarios() []scenario {
 		}
 		out = append(out, scenario{Name: fmt.Sprintf("death/before-op-%02d/2 racing recoverers", k), Mode: "death", HoldBeats: 4, KillAt: k, Racers: 2, Bound: b})
 	}
+	// (c') the holder's context (with a far deadline) ends instead of its process
+	out = append(out, scenario{Name: "death/context with a deadline cancelled after 70ms", Mode: "death", HoldBeats: 4, KillAt: 1 << 30, CtxDeath: 70 * time.Millisecond, Racers: 1, Bound: 0})
+	out = append(out, scenario{Name: "death/context with a deadline cancelled after 1ms", Mode: "death", HoldBeats: 4, KillAt: 1 << 30, CtxDeath: time.Millisecond, Racers: 1, Bound: 1})
 	// (d) the recoverers use stale-lock override
 	for _, k := range []int{2, 3, 5, 8, 13} {
 		out = append(out, scenario{Name: fmt.Sprintf("death/before-op-%02d/override recoverer", k), Mode: "death", HoldBeats: 4, KillAt: k, Racers: 1, Override: true, Bound: 0})
